@@ -281,7 +281,9 @@ PLAYBACK_FOR_RE = re.compile(r"/// Check for `[^`]*`: (.*?)\n///\n", re.S)
 
 def obtain_playback(work, crate, harness, res):
     logfile = os.path.join(work, "logs", harness.name + ".playback.log")
-    rc, killed, wall, _ = run_cmd(kani_cmd(harness, res["tdir"], playback=True), crate, harness.timeout_thorough, logfile, mem_cap_mb=16384)
+    rc, killed, wall, _ = run_cmd(kani_cmd(harness, res["tdir"], playback=True), crate, harness.timeout_thorough, logfile, mem_cap_mb=24576)
+    if killed:
+        res["playback_note"] = "playback run stopped: " + killed
     text = open(logfile, errors="replace").read()
     tests = {}
     for m in PLAYBACK_RE.finditer(text):
@@ -407,7 +409,7 @@ def check_property(prop, tier, only=None, keep=False, jobs=None):
     rc_final = 2
     try:
         crate = make_crate(work)
-        jobs = jobs or int(os.environ.get("VERIF_JOBS", "0") or 0) or min(8, len(hs))
+        jobs = jobs or int(os.environ.get("VERIF_JOBS", "0") or 0) or min(10, len(hs))
         hs.sort(key=lambda h: -h.cost)
         results = []
         free = list(range(jobs))
@@ -453,7 +455,7 @@ def check_property(prop, tier, only=None, keep=False, jobs=None):
             descs = sorted({f["description"] for f in r["failed_checks"]})
             tests = obtain_playback(work, crate, h, r)
             if not tests:
-                inconclusive.append("%s: counterexample for %s but no concrete playback could be produced" % (h.name, descs))
+                inconclusive.append("%s: counterexample for %s but no concrete playback could be produced (%s)" % (h.name, descs, r.get("playback_note", "no playback test in the output")))
                 continue
             rdir = os.path.join(os.environ.get("VERIF_EVIDENCE_DIR", os.path.join(VERIF, "evidence")), "replay")
             os.makedirs(rdir, exist_ok=True)
